@@ -527,6 +527,35 @@ def _render_target(cell):
         else:
             body, top = "\tvar w: %s = KH.magic;\n" % a, decl + "const KH: Header = Header { magic: %s, version: 2 };\n\n" % text
         src = top + "fn main() -> i32\n{\n" + body + "\tvar r: i32 = 0;\n\tif w == %d\n\t{\n\t\tr = 1;\n\t}\n\treturn: r\n}\n" % n
+    elif what == "ccast":
+        # a cast of a value known at compile time, in every position (inside constant aggregates too)
+        top = "const FIVE: %s = 5;\n\nstruct Pair\n{\n\tfirst: %s,\n\tsecond: %s,\n}\n\n" % (a, b, b)
+        pre = ""
+        if cell["src"] == "lit":
+            e = "5%s as %s" % (a, b)
+        elif cell["src"] == "named":
+            e = "FIVE as %s" % b
+        elif cell["src"] == "len":
+            pre = "\tvar five: [5]i32 = [1, 2, 3, 4, 5];\n"
+            e = "|five| as %s" % b
+        else:
+            e = "|:[5]u8| as %s" % b
+        place = cell["place"]
+        if place == "var":
+            body = pre + "\tvar w: %s = %s;\n" % (b, e)
+        elif place == "elem":
+            body = pre + "\tvar t: [2]%s = [1, %s];\n\tvar w: %s = t[1];\n" % (b, e, b)
+        elif place == "nested":
+            body = pre + "\tvar t: [2][2]%s = [[%s, 1], [2, %s]];\n\tvar w: %s = t[1][1];\n" % (b, e, e, b)
+        elif place == "member":
+            body = pre + "\tvar p: Pair = Pair { first: 1, second: %s };\n\tvar w: %s = p.second;\n" % (e, b)
+        elif place == "const":
+            top += "const K: %s = %s;\n\n" % (b, e)
+            body = "\tvar w: %s = K;\n" % b
+        else:
+            top += "const KT: [2][2]%s = [[%s, 1], [2, %s]];\n\n" % (b, e, e)
+            body = "\tvar w: %s = KT[1][1];\n" % b
+        src = top + "fn main() -> i32\n{\n" + body + "\tvar r: i32 = 0;\n\tif w == 5\n\t{\n\t\tr = 1;\n\t}\n\treturn: r\n}\n"
     else:
         ty = {"ptr": "&u8", "ptrarray": "[5]&i64", "ptrstruct": "Link", "usize": "usize", "usizearray": "[3]usize", "mixed": "Table"}[a]
         top = "struct Link\n{\n\tnext: &Link,\n\ttag: i32,\n}\n\nstruct Table\n{\n\tcount: usize,\n\trows: [2]&i32,\n\tflag: u8,\n}\n\n"
@@ -589,7 +618,8 @@ def render_shape(case, idx):
         origin = "opaque %s" % cell["use"]
     elif fam == "target":
         mods, wasm = _render_target(cell)
-        origin = "target %s %s/%s%s%s" % (cell["what"], cell["a"], cell["b"], "/" + cell["place"] if "place" in cell else "", "/wasm" if wasm else "")
+        origin = "target %s %s/%s%s%s%s" % (cell["what"], cell["a"], cell["b"], "/" + cell["src"] if "src" in cell else "",
+                                             "/" + cell["place"] if "place" in cell else "", "/wasm" if wasm else "")
     elif fam == "joinstr":
         src, fault = _render_joinstr(cell, exp)
         mods = [{"name": "join.pn", "src": src}]
@@ -678,6 +708,9 @@ def ensure_run(tier, seed):
             full = os.path.join(common.WORK, name)
             if name.startswith("pipeline-cache-%s-s%d-" % (tier, seed)) and full != lock_path:
                 if os.path.isdir(full):
+                    # (a run on ANOTHER tree may be filling its own .tmp right now: two checks on two scratch worktrees side by side)
+                    if name.endswith(".tmp") and time.time() - os.path.getmtime(full) < 3600:
+                        continue
                     shutil.rmtree(full, ignore_errors=True)
                 elif name.endswith(".lock"):
                     try:
